@@ -74,10 +74,10 @@ def run(ctx):
     rb, rb2, pb, pb2 = [[b for b in x if life(b)] for x in (rb, rb2, pb, pb2)]
     rscripts = pl.expand_repeat(pl.reuse_lifecycle_scenarios(T)) + \
         [pl.beh_to_script("reuse", b, "tlc-%d" % i) for i, b in enumerate(rb)] + \
-        [pl.beh_to_script("reuse", b, "tlcfree-%d" % i) for i, b in enumerate(rb2)]
+        [pl.beh_to_script("reuse", b, "tlcfree-%d" % i, 400) for i, b in enumerate(rb2)]
     pscripts = pl.expand_repeat(pl.pipeline_scenarios(T)) + \
         [pl.beh_to_script("pipeline", b, "tlc-%d" % i) for i, b in enumerate(pb)] + \
-        [pl.beh_to_script("pipeline", b, "tlcfree-%d" % i) for i, b in enumerate(pb2)]
+        [pl.beh_to_script("pipeline", b, "tlcfree-%d" % i, 400) for i, b in enumerate(pb2)]
     log("replaying %d reuse scripts and %d pipeline scripts" % (len(rscripts), len(pscripts)))
     binary = vlib.go_build(ctx, "drv_pool")
     rrecs, rrej = pl.run_scripts(ctx, "reuse", rscripts, binary)
@@ -109,11 +109,11 @@ def run(ctx):
                 return t[:idx[-1]] + t[idx[-1] + 1:]
             return None
 
-        def post_call_ok(t):
-            for e in t:
-                if e["ev"] == "Return" and e["c"] == 6 and e["res"] == "tclosed":
-                    e["res"] = "other"
-                    return t
+        def post_call_dials(t):
+            nd = sum(1 for e in t if e["ev"] == "Dial")
+            for i, e in enumerate(t):
+                if e["ev"] == "Return" and e["c"] == 6:
+                    return t[:i] + [{"ev": "Dial", "d": nd + 1}] + t[i:]
             return None
 
         def drop_uclose(t):
@@ -123,7 +123,7 @@ def run(ctx):
                 return t[:idx[-1]] + t[idx[-1] + 1:]
             return None
         pl.corrupt_and_check(ctx, "reuse", rrecs, drop_close, "reuse: the Close() of a connection during transport Close removed")
-        pl.corrupt_and_check(ctx, "reuse", rrecs, post_call_ok, "reuse: error class of the call after Close changed")
+        pl.corrupt_and_check(ctx, "reuse", rrecs, post_call_dials, "reuse: a dial inserted into the call made after Close")
         pl.corrupt_and_check(ctx, "pipeline", precs, drop_uclose, "pipeline: the Close() of a live connection during transport Close removed")
     pl.dead_driver(ctx, rrecs, rscripts, "reuse")
     pl.dead_driver(ctx, precs, pscripts, "pipeline")
